@@ -76,21 +76,27 @@ AddrCall ==
   /\ Log([a |-> "call", f |-> "main"])
 
 (* a second module, loaded and linked now, whose function calls h2 and inlines h1 of the first module *)
-LinkLater ==
+(* the interface given to this second MIR_link applies to the newly loaded module only and may differ from the first *)
+LinkLater(i2) ==
   /\ iface # "none" /\ later = 0
-  /\ later' = 1
+  /\ later' = (CASE i2 = "interp" -> 1 [] i2 = "gen" -> 2 [] i2 = "lazy" -> 3)
   /\ UNCHANGED <<iface, target, mcode, serial>>
-  /\ Log([a |-> "later"])
+  /\ Log([a |-> "later", i |-> i2])
 CallLate ==
-  /\ later = 1
+  /\ later > 0
   /\ LET lazy == {g \in {"h1", "h2"} : target[g] = "lazywrap"} IN
-     IF lazy # {} /\ iface = "lazy" THEN GenSet({"h2"} \cap lazy) ELSE UNCHANGED <<target, mcode, serial>>
+     IF lazy # {} THEN GenSet({"h2"} \cap lazy) ELSE UNCHANGED <<target, mcode, serial>>
   /\ UNCHANGED <<iface, later>>
-  /\ Log([a |-> "calllate", via |-> IF iface = "interp" THEN "interp" ELSE "addr"])
+  /\ Log([a |-> "calllate", via |-> IF later = 1 THEN "interp" ELSE "addr"])
+(* explicit MIR_gen of the later module's function (it inlines h1 and calls h2 directly) *)
+GenLate ==
+  /\ later > 0
+  /\ UNCHANGED <<iface, target, mcode, serial, later>>
+  /\ Log([a |-> "genlate"])
 
 Next == \/ \E i \in Ifaces : Link(i)
         \/ \E f \in Funcs : Gen(f) \/ Output(f)
-        \/ InterpCall \/ AddrCall \/ LinkLater \/ CallLate
+        \/ InterpCall \/ AddrCall \/ (\E i2 \in Ifaces : LinkLater(i2)) \/ CallLate \/ GenLate
 Spec == Init /\ [][Next]_vars
 
 (* ---- properties of the model (what the binding then demands of the code) ---- *)
